@@ -129,6 +129,12 @@ func newUniverse() *universe {
 		litTerm(xsdString, "lang=\"en\"\nx", nil), // lexical form that looks like a tag line
 		litTerm(xsdString, "", nil),
 		litTerm("http://e/a", "x", nil), // datatype equal to an IRI of the universe
+		// differ from members above in letter case only (tag, lexical form, datatype): term equality is exact
+		litTerm(langString, "x", rdf.LanguageLiteralTag{Language: "EN"}),
+		litTerm(xsdString, "X", nil),
+		litTerm("http://e/A", "x", nil),
+		litTerm(langString, "x", rdf.LanguageLiteralTag{Language: "en-US"}),
+		litTerm(langString, "x", rdf.LanguageLiteralTag{Language: "en-us"}),
 	}
 	u.badLits = []*term{
 		litTerm(langString, "lang=\"en\"\nx", nil),                      // collides with "x"@en in the hashed concatenation
